@@ -457,6 +457,14 @@ class TableFn:
                     and isinstance(right, ast.Constant) and right.value in ("inner", "outer", "trim"):
                 base = {"inner": "inner", "outer": "(!inner)", "trim": "trim"}[right.value]
                 return base if isinstance(op, ast.Eq) else f"(!{base})"
+            if isinstance(op, (ast.Eq, ast.NotEq)) or type(op) in self.CMP:
+                # comparison of two indices / lengths / numbers (`len(table) == 0`, `len(ser) > 1`)
+                a, b = self.expr(e.left, env), self.expr(right, env)
+                if a[0] in ("nat", "zero", "int") and b[0] in ("nat", "zero", "int") and "nat" in (a[0], b[0]):
+                    sym = "==" if isinstance(op, ast.Eq) else "!=" if isinstance(op, ast.NotEq) else None
+                    if sym:
+                        return f"({a[1]} {sym} {b[1]})"
+                    return f"decide ({a[1]} {self.CMP[type(op)]} {b[1]})"
         if isinstance(e, ast.Call) and ast.unparse(e.func) == "len" and len(e.args) == 1:
             if isinstance(e.args[0], ast.Name) and e.args[0].id == self.table:
                 return "(t.length != 0)"
